@@ -80,6 +80,16 @@ def run_single(rng, res, idx):
     cfg['kl'] = {'const': ('const', rng.choice([1e-3, 1e-4, 1e-2])), 'mild': ('const', rng.choice([0.1, 1.0, 10.0])), 'big': ('const', 1e9),
                  'callable': ('lin', 1e-3, 2.0), 'none': ('none',)}[klkind]
     cfg['lr'] = rng.choice([('const', 0.1), ('const', 1.0), ('const', 0.01), ('inv', 0.5)])
+    ext_lr = ext_kl = None
+    if rng.random() < 0.3:
+        # hyper-parameters given as callables that read external state which the user changes between steps (LR scheduler)
+        ext_lr = [rng.choice([0.05, 0.2, 1.0]) * f for f in (1, 2, 3, 0.5, 4, 1)]
+        cfg['lr'] = ('ext', f'lr{idx}')
+        kh.EXT[f'lr{idx}'] = ext_lr[0]
+        if klkind in ('const', 'mild') and rng.random() < 0.5:
+            ext_kl = [cfg['kl'][1] * f for f in (1, 0.5, 2, 1, 3, 0.25)]
+            cfg['kl'] = ('ext', f'kl{idx}')
+            kh.EXT[f'kl{idx}'] = ext_kl[0]
     case = dict(idx=idx, kind='single', cfg=cfg)
     probes = []
     orig = getattr(BaseKFACPreconditioner, '_compute_grad_scale', None)
@@ -107,6 +117,10 @@ def run_single(rng, res, idx):
         zero_at = rng.randrange(nsteps) if rng.random() < 0.3 else None
         flip_at = rng.randrange(nsteps) if (cfg['method'] == 'inverse' and rng.random() < 0.25) else None
         for st in range(nsteps):
+            if ext_lr is not None:
+                kh.EXT[f'lr{idx}'] = ext_lr[st % len(ext_lr)]
+            if ext_kl is not None:
+                kh.EXT[f'kl{idx}'] = ext_kl[st % len(ext_kl)]
             if st == flip_at and st > 0:
                 # negative curvature through the public API: A <- -(A + 2*lambda*I) makes (A + lambda I) negative definite, so sum<V,D> < 0
                 sd = s.p.state_dict()
@@ -131,6 +145,9 @@ def run_single(rng, res, idx):
             del probes[:]
             s.p.step()
             R = s.grads()
+            # a user logging the hyper-parameters after the step (reads must not influence later steps)
+            _ = (s.p.lr, s.p.kl_clip, s.p.damping, s.p.factor_decay, s.p.factor_update_steps, s.p.inv_update_steps)
+            res.count('property_reads_between_steps')
             if st == zero_at:
                 res.count('zero_grad_checks')
                 if any(not torch.isfinite(R[n]).all() or float(R[n].abs().max()) != 0 for n in R):
